@@ -23,11 +23,12 @@ from common import coq_list, parse_bools, VERIF
 CORPUS = VERIF / 'corpus' / 'C09'
 
 # Tolerance on per-individual values: relative 1e-12.  The engine computes a trajectory as
-# exp(sum_r log f_r): with f_r in [2^-4, 2^5], at most 12 rows, |sum| <= 42, every log is within 1 ulp
-# (< 1e-15 absolute), the running sum adds <= 12 * ulp(42)/2 < 5e-14, exp adds 1 ulp relative, the per-row
-# products beta*x*xi add <= 3 ulp each: relative error < 1e-13.  The Monte-Carlo average of <= 16 such terms and
-# the division add < 2e-15.  1e-12 leaves a factor 10; the smallest effect of a wrong row or draw index is a
-# factor (1 + 1/2048) on one row (adjacent draws differ by 1/1024, values are in [1,2)), i.e. 5e-4 relative.
+# exp(sum_r log f_r): here 0.5 < f_r < 90 (|log f_r| < 4.5), at most 10 rows, so |sum| <= 45; every log is within
+# 1 ulp (< 1e-15 absolute), the running sum adds <= 10 * ulp(45)/2 < 4e-14, exp adds 1 ulp relative, the per-row
+# products b*x*xi, x+b*y*xi add <= 3 ulp each: relative error < 1e-13.  The Monte-Carlo average of <= 16 such
+# terms and the division add < 2e-15.  1e-12 leaves a factor 10; the smallest effect of a wrong row or draw index
+# is a factor (1 + 1/2048) on one row (adjacent draws differ by 1/1024, draws are in [1,2)), i.e. 5e-4 relative,
+# and data values are pairwise distinct inside a column.
 TOL = Fraction(1, 10 ** 12)
 TOL_F = 1e-12
 
@@ -294,7 +295,7 @@ def stream_panel_map(ctx):
         for k, r in enumerate(o):
             res[j + 16 * k] = r
     items = []
-    stable = 0
+    stable = eligible = 0
     for idx, (c, r) in enumerate(zip(cases, res)):
         st.record({k: c[k] for k in ('ids', 'scale', 'dtype', 'index', 'history') if k in c} | {'rm': c.get('rm')},
                   nontrivial=len(set(c['ids'])) >= 2 or not r.get('ok'))
@@ -312,6 +313,7 @@ def stream_panel_map(ctx):
         if r.get('ok') and 'remove' not in c.get('history', []):
             exp = sorted(range(len(c['ids'])), key=lambda k: c['ids'][k])
             stable += r['rows_after'] == exp
+            eligible += 1
     verdict = run_coq_bools(ctx, st, 'pmap', MAP_HEADER, items, 250)
     for idx, b in verdict.items():
         if not b:
@@ -319,20 +321,19 @@ def stream_panel_map(ctx):
                                     'panel_ok, build_map, a sorted permutation, sample_size)', res[idx])
     st.extra['accepted'] = sum(1 for r in res if r.get('ok'))
     st.extra['refused'] = sum(1 for r in res if not r.get('ok') and r.get('stage') == 'panel')
-    st.extra['rows_in_stable_order'] = stable
+    st.extra['rows_in_stable_order'] = f'{stable}/{eligible} accepted cases without removal (informative: no theorem needs stability)'
     if st.disagreements:
         ctx.stream_broken('panel_map', f'{len(st.disagreements)} disagreements, first: '
                           + json.dumps(st.disagreements[0], default=str)[:1500])
 
 
 # ------------------------------------------------------------------------------------------ panel_ll
-def dy(rng, used, lo=9):
-    """a fresh dyadic value (2j+lo)/16, distinct inside one table: exchanging two rows changes a product"""
-    while True:
-        v = 2 * rng.randrange(0, 60) + lo
-        if v not in used:
-            used.add(v)
-            return v / 16.0
+def dyadic_column(rng, n):
+    """n pairwise distinct positive dyadic values (exchanging two rows of a table changes a product):
+    (2j+9)/16 in [0.56, 8] for small tables, (2j+33)/64 on a finer grid for large ones"""
+    if n <= 50:
+        return [(2 * j + 9) / 16.0 for j in rng.sample(range(60), n)]
+    return [(2 * j + 33) / 64.0 for j in rng.sample(range(2 * n + 50), n)]
 
 
 def gen_ll_base(rng, kmax, smax):
@@ -341,9 +342,8 @@ def gen_ll_base(rng, kmax, smax):
     vals = order_values(rng, vals)
     sizes = gen_sizes(rng, K, smax)
     col = blocks_to_column(vals, sizes)
-    used = set()
-    x = [dy(rng, used) for _ in col]
-    y = [dy(rng, used) for _ in col]
+    x = dyadic_column(rng, len(col))
+    y = dyadic_column(rng, len(col))
     return {'ids': col, 'scale': scale, 'dtype': dtype, 'x': x, 'y': y,
             'kind': rng.choice(['x', 'bx', 'xpby', 'xpby']), 'beta': rng.choice([0.5, 0.75, 1.25, 1.5, 2.0]),
             'R': rng.choice([1, 2, 3, 4, 5, 8, 16]), 'threads': rng.choice([1, 2, 3, 4]),
@@ -404,10 +404,10 @@ def rowvals(c):
 def expected(c):
     """Independent statement of the property (no map, no sorting of rows): for each identifier, the product
     over the rows carrying it; with draws, the average over k of the products with draw k of row j of the
-    draws table, for every candidate row j.  All numbers are dyadic: integer numerators over 2^12 per row
-    (data in sixteenths, beta in quarters, draws in 1024ths), exact."""
+    draws table, for every candidate row j.  All numbers are dyadic: integer numerators over 2^18 per row
+    (data in 64ths, beta in quarters, draws in 1024ths), exact."""
     rv = rowvals(c)
-    D = 64                                   # p0, p, q are multiples of 1/64
+    D = 256                                  # x, y multiples of 1/64, beta of 1/4: p0, p, q multiples of 1/256
     rvi = [(int(p0 * D), int(p * D), int(q * D)) for p0, p, q in rv]
     assert all(Fraction(a, D) == p0 and Fraction(b, D) == p and Fraction(cc, D) == q
                for (a, b, cc), (p0, p, q) in zip(rvi, rv))
@@ -602,7 +602,7 @@ def cross_variant_oracle(ctx, group):
 def stream_panel_ll(ctx):
     st = ctx.stream('panel_ll',
                     'panel tables: 1-6 (thorough 1-20) individuals of 1-4 (1-10) rows, all data values distinct dyadics '
-                    '(2j+9)/16; formulas x, b*x, x+b*y (and with one tagged draw: *xi, x+b*y*xi); b in {.5,.75,1.25,1.5,2}; '
+                    '(2j+9)/16 (large tables: (2j+33)/64) per column; formulas x, b*x, x+b*y (and with one tagged draw: *xi, x+b*y*xi); b in {.5,.75,1.25,1.5,2}; '
                     '1-16 draws; 1-4 threads; each base case also with individuals permuted, rows permuted inside '
                     'individuals, both, and identifiers negated (reverse order); paths simulate / calculate_likelihood / '
                     'get_value_c; non-trivial = at least 2 individuals and one individual with >= 2 rows; distinct by full case')
